@@ -13,6 +13,7 @@ import subprocess
 import sys
 import time
 import traceback
+import signal
 
 import numpy as np
 
@@ -32,11 +33,11 @@ def _job(args):
     from . import api
     t0 = time.time()
     import signal
-    from .alg import Undecided
+    from .alg import Undecided, BudgetExceeded
 
     def _alarm(signum, frame):
-        signal.alarm(5)      # re-armed: an engine layer that catches Undecided and carries on is interrupted again
-        raise Undecided("per-obligation time budget exceeded")
+        signal.alarm(5)      # re-armed: a layer that swallows the exception and carries on is interrupted again
+        raise BudgetExceeded("per-obligation time budget exceeded")
     budget = int(os.environ.get("VF_OB_BUDGET", "900" if tier == 'thorough' else "150"))
     try:
         signal.signal(signal.SIGALRM, _alarm)
@@ -44,7 +45,7 @@ def _job(args):
         item = api.REGISTRY[prop][idx]
         out = RUNNERS[item.kind](item, obname, payload, tier, seed)
         signal.alarm(0)
-    except Undecided as e:
+    except (Undecided, BudgetExceeded) as e:
         signal.alarm(0)
         out = {"name": obname, "engine": getattr(api.REGISTRY[prop][idx], 'kind', '?'), "status": "undecided", "detail": str(e)}
     except Exception as e:   # a crash of the machinery is never a verdict
@@ -57,7 +58,7 @@ def _job(args):
 
 def _run_R(item, obname, inst, tier, seed):
     from . import rrun
-    from .alg import Undecided
+    from .alg import Undecided, BudgetExceeded
     # bounded stand-in / replay harness first (seconds): the same contract on random concrete inputs, native float64;
     # its result is kept even when the deductive part below runs out of its time budget
     n = item.bounded_n[1 if tier == 'thorough' else 0]
@@ -95,7 +96,8 @@ def _run_R(item, obname, inst, tier, seed):
     try:
         res = rrun.prove(item.fn, inst, obname, seed=seed, max_paths=item.max_paths, timeout=item.timeout)
         out = res.to_json()
-    except Undecided as e:
+    except (Undecided, BudgetExceeded) as e:
+        signal.alarm(0)
         out = {"name": obname, "status": "undecided", "detail": str(e)}
     out["engine"] = "R"
     out["functions"] = item.functions
@@ -140,8 +142,11 @@ class BReport:
 
     def attempt(self, clause, inputs, fn):
         """run fn(); an exception raised by the code under test on a valid input is a failure of `clause`"""
+        from .alg import Undecided
         try:
             return fn()
+        except Undecided:       # the per-obligation time budget of the checker, not an exception of the code under test
+            raise
         except Exception as e:
             self.fail(clause, f"raised {type(e).__name__}: {e}", inputs)
             return None
